@@ -295,6 +295,24 @@ theorem min_spec_witness :
         (argVals ⟨.min, false, false, .var 0, none, 1⟩ k1Rows) = true) := by
   decide +kernel
 
+/-- … and MAX over `5, "a", 1u` answers 1u -/
+def k1Rows' : List Row :=
+  [[some (.num .integer 5 0)], [some (.str [97] [])], [some (.num .unsignedInt 1 0)]]
+
+theorem max_spec_witness :
+    ¬ (maxOk (aggValue ⟨.max, false, false, .var 0, none, 1⟩ k1Rows')
+        (argVals ⟨.max, false, false, .var 0, none, 1⟩ k1Rows') = true) := by
+  decide +kernel
+
+/-- non-vacuity of the partial theorems: a group of mixed kinds with an unbound value -/
+example : ValsOk ⟨.min, false, false, .var 0, none, 1⟩ exRows ∧
+    aggValue ⟨.min, false, false, .var 0, none, 1⟩ exRows = some (.bool true) ∧
+    aggValue ⟨.max, false, false, .var 0, none, 1⟩ exRows = some (.num .integer 2 0) := by
+  refine ⟨?_, by decide +kernel, by decide +kernel⟩
+  intro t ht
+  revert t
+  decide +kernel
+
 /-- SAMPLE: a value of the group (the first one), unbound iff there is none -/
 def Statement_sample_spec : Prop :=
   ∀ (a : AggSpec) (rows : List Row), a.kind = .sample →
@@ -378,18 +396,58 @@ theorem query_stages (q : Query) (input : List Row) (h : q.isAggregate = true) :
             (evalOrderBy t.order (extendProj t.proj (applyHaving t.having grouped))))) := by
   simp only [evalQuery, groupStage, h, if_true]
 
-/-- still to be proved: evaluating the rewritten expression (aggregates replaced by `__agg_n__`, variables by
-    SAMPLE) on the row AggregateJoin produces for a group equals evaluating the original expression with each
-    aggregate computed over the group.  (Tied by correspondence only.) -/
+/-- `translateAggregates` is correct: (a) the row AggregateJoin builds for a group carries, at each `__agg_n__`,
+    the value of that aggregate over the group; (b) it keeps doing so while Extend binds user variables;
+    (c) on any such row the rewritten SELECT expressions, HAVING condition and ORDER BY keys evaluate to what the
+    original expressions mean on the group (`evalG`: aggregates over the group, bare variables SAMPLEd, SELECT
+    aliases read from the row); (d) every plain SELECT variable is bound, through its alias pair, to a SAMPLE of
+    itself.  Covers an aggregate inside an expression, the implicit SAMPLE, HAVING after aliasing, and
+    ORDER BY on an alias next to an aggregate. -/
 def Statement_rewrite_correct : Prop :=
-  ∀ (q : Query) (rows : List Row) (p : Proj), q.isAggregate = true → q.group = none → p ∈ q.proj →
-    ∀ v e, p = .expr v e → e.hasAgg = true →
-      let t := translateAggregates q
-      let w := q.nuser + t.A.length
-      ∀ g ∈ aggregateJoin w none t.A (rows.map (padRow w)),
-      ∀ p' ∈ t.proj, ∀ e', p' = .expr v e' →
-        evalE e' g = (match e with
-          | .agg k d s arg sep => aggValue ⟨k, d, s, arg, sep, 0⟩ (rows.map (padRow w))
-          | _ => evalE e' g)
+  ∀ (q : Query),
+    (∀ (w : Nat) (rows : List Row),
+      Carries q.nuser (translateAggregates q).A rows
+        (bindAll (translateAggregates q).A (foldAcc (translateAggregates q).A rows) (emptyRow w))) ∧
+    (∀ (rows : List Row) (g : Row) (v : Nat) (x : Val), v < q.nuser →
+      Carries q.nuser (translateAggregates q).A rows g → Carries q.nuser (translateAggregates q).A rows (g.set v x)) ∧
+    (∀ (rows : List Row) (g : Row), Carries q.nuser (translateAggregates q).A rows g →
+      Forall2 (ProjAgrees rows g) q.proj (translateAggregates q).proj ∧
+      (match q.having, (translateAggregates q).having with
+       | none, none => True
+       | some h, some h' => evalE h' g = evalG [] rows g h
+       | _, _ => False) ∧
+      Forall2 (KeyAgrees (q.proj.filterMap Proj.alias?) rows g) q.order (translateAggregates q).order) ∧
+    (∀ al ∈ (translateAggregates q).aliases, Proj.var al.2 ∈ q.proj ∧ ∃ i, al.1 = q.nuser + i ∧
+      (translateAggregates q).A[i]? = some ⟨.sample, false, false, .var al.2, none, q.nuser + i⟩)
+
+theorem rewrite_correct : Statement_rewrite_correct := by
+  intro q
+  obtain ⟨hwf, hb, hc⟩ := translateAggregates_spec q
+  refine ⟨fun w rows => groupRow_carries q.nuser w _ hwf rows, ?_, hb, hc⟩
+  intro rows g v x hv hcar i a ha
+  have hne : v ≠ q.nuser + i := by omega
+  rw [Row.get_set, if_neg hne]
+  exact hcar i a ha
+
+/-- non-vacuity: `SELECT ?g (SUM(?v) + 1 AS ?x) … GROUP BY ?g HAVING (COUNT(?v) > 1) ORDER BY DESC(?x) COUNT(?v)` -/
+def exQuery : Query :=
+  { nuser := 3, group := some [0],
+    proj := [.var 0, .expr 2 (.add (.agg .sum false false (.var 1) none) (.const (.num .integer 1 0)))],
+    having := some (.cmp .gt (.agg .count false false (.var 1) none) (.const (.num .integer 1 0))),
+    order := [(.var 2, true), (.agg .count false false (.var 1) none, false)],
+    modifier := .none, offset := none, limit := none }
+
+example : ((translateAggregates exQuery).A.map (·.kind), (translateAggregates exQuery).A.map (·.res),
+    (translateAggregates exQuery).aliases) =
+    ([.sum, .count, .count, .sample], [3, 4, 5, 6], [(6, 0)]) := by decide +kernel
+
+def exInput : List Row :=
+  [[some (.num .integer 1 0), some (.num .integer 2 0)], [some (.num .integer 2 0), some (.num .decimal (5 / 2) 1)],
+   [some (.num .integer 1 0), some (.num .integer 4 0)], [some (.num .integer 2 0), none],
+   [some (.num .integer 2 0), some (.num .integer 1 0)], [some (.num .integer 3 0), some (.num .integer 9 0)]]
+
+example : evalQuery exQuery exInput =
+    [[some (.num .integer 1 0), none, some (.num .integer 7 0)],
+     [some (.num .integer 2 0), none, some (.num .decimal (9 / 2) 1)]] := by decide +kernel
 
 end RV.C08
